@@ -31,12 +31,31 @@ class Mod:
         self.funcs: Dict[str, ast.FunctionDef] = {}
         self.classes: Dict[str, ast.ClassDef] = {}
         self._index(self.tree, "")
+        self.imports: Dict[str, Tuple[str, Optional[str]]] = {}
+        for st in ast.walk(self.tree):
+            if isinstance(st, ast.Import):
+                for a in st.names:
+                    self.imports[(a.asname or a.name).split(".")[0]] = (a.name if a.asname else a.name.split(".")[0], None)
+            elif isinstance(st, ast.ImportFrom) and st.module and not st.level:
+                for a in st.names:
+                    self.imports[a.asname or a.name] = (st.module, a.name)
         self.consts: Dict[str, ast.AST] = {}
         for st in self.tree.body:
             if isinstance(st, ast.Assign) and len(st.targets) == 1 and isinstance(st.targets[0], ast.Name):
                 self.consts[st.targets[0].id] = st.value
             elif isinstance(st, ast.AnnAssign) and isinstance(st.target, ast.Name) and st.value is not None:
                 self.consts[st.target.id] = st.value
+            elif isinstance(st, ast.Assign) and len(st.targets) == 1 and isinstance(st.targets[0], (ast.Tuple, ast.List)) \
+                    and isinstance(st.value, (ast.Tuple, ast.List)) and len(st.value.elts) == len(st.targets[0].elts) \
+                    and not any(isinstance(e, ast.Starred) for e in st.targets[0].elts + st.value.elts):
+                # A, B = 1, 2
+                for t, v in zip(st.targets[0].elts, st.value.elts):
+                    if isinstance(t, ast.Name):
+                        self.consts[t.id] = v
+            elif isinstance(st, ast.Assign) and len(st.targets) > 1 and all(isinstance(t, ast.Name) for t in st.targets):
+                # A = B = 1
+                for t in st.targets:
+                    self.consts[t.id] = st.value
 
     def _index(self, node, prefix):
         for c in ast.iter_child_nodes(node):
